@@ -94,8 +94,8 @@ theorem rsrc2_rewriting_on_fields (w x : BitVec 32) (c : Bool) :
     rwa [Rsrc2.enc_dec, Rsrc2.enc_dec] at this
   · rw [fixRsrc2_eq_iff, Rsrc2.norm_eq_iff]
 
-/-- **kd_roundtrip_typed.** For every typed descriptor in the layout the loader reads
-(rsrc3 @40, rsrc1 @44, rsrc2 @48) and whatever bytes 12..15, 24..39, 52..63 hold: the
+/-- **kd_roundtrip_typed.** For every typed descriptor in the ABI layout, which the repaired
+loader reads (rsrc3 @44, rsrc1 @48, rsrc2 @52), and whatever bytes 12..15, 24..43, 56..63 hold: the
 derived metadata is `KdV.derived` (sizes, entry, rsrc3, rsrc1 verbatim; rsrc2 normalised;
 counts = (granule+1)·4 / ·8; kernarg enable = size > 0), reading it back returns the
 descriptor with rsrc2 normalised, the ignored fields are independent, and the round trip
@@ -111,9 +111,9 @@ theorem kd_roundtrip_typed (k : KdV) (g : KdIgnored) :
   simp [KdV.normalised]
 
 /-- **kd_parse_injective.** Two descriptors parse to the same metadata **iff** they agree on
-bytes 0..11, 16..23, 40..47 and their words at 48 are indistinguishable after the rewriting
-(`rsrc2_rewriting_on_fields` says which those are). Bytes 12..15, 24..39, 52..63 — among
-them the ABI's rsrc2 and kernel_code_properties — are ignored. -/
+bytes 0..11, 16..23, 44..51 and their words at 52 are indistinguishable after the rewriting
+(`rsrc2_rewriting_on_fields` says which those are). Bytes 12..15, 24..43, 56..63 — among
+them kernel_code_properties and kernarg_preload — are ignored. -/
 theorem kd_parse_injective (a b : Bytes) :
     parseV5KernelDescriptor a = parseV5KernelDescriptor b ↔ KdAgree a b :=
   parseV5KernelDescriptor_eq_iff a b
@@ -189,22 +189,43 @@ theorem selection_first_match (secs : List Section) (syms : List Symbol) (k : St
   ⟨fun _ h => firstKernelSym_is_first h, firstKernelSym_none_iff secs syms k, isKernelSym_iff secs,
    auto_detect_selects_the_only secs syms⟩
 
-/-- **named_load_faults_exactly.** A load by name panics exactly when the symbol slice panics
-or the descriptor slice panics; the latter happens exactly when the first `<k>.kd` symbol of
-size 64 in a `.rodata`-named section has an offset from `.rodata` within 64 of 2^64 (1..64
-bytes below the section, or ≥ 2^64−64 above it) whose wrapped end still fits: the check
-`kdOffset+64 <= len` overflows. -/
-theorem named_load_faults_exactly (secs : List Section) (text : Section) (td : Bytes) (syms : List Symbol) (k : String)
-    (hv : ∀ s ∈ syms, s.value < U64) :
+/-- **named_load_faults_exactly.** After the repair of `findV5KernelDescriptor` a load by name
+panics exactly when the kernel symbol's own slice panics: the descriptor lookup is total —
+for every view, every symbol table and every name it answers "none" or "found", never a panic. -/
+theorem named_load_faults_exactly (secs : List Section) (text : Section) (td : Bytes) (syms : List Symbol) (k : String) :
     (loadNamed secs text td syms k = .fault ↔
-      (selectKernel secs text.addr td syms k = .err .hiPastCap ∨ selectKernel secs text.addr td syms k = .err .loPastHi ∨
-       ∃ s b, selectKernel secs text.addr td syms k = .ok s b ∧ findV5 secs k syms = .fault)) ∧
-    (findV5 secs k syms = .fault ↔
+      (selectKernel secs text.addr td syms k = .err .hiPastCap ∨ selectKernel secs text.addr td syms k = .err .loPastHi)) ∧
+    findV5 secs k syms ≠ .fault :=
+  ⟨loadNamed_fault_iff secs text td syms k, findV5_never_faults secs k syms⟩
+
+/-- the totality statement for the lookup as it was before the repair -/
+def kd_lookup_total_before_fix : Prop :=
+  ∀ (secs : List Section) (k : String) (syms : List Symbol), (∀ s ∈ syms, s.value < U64) → findV5Old secs k syms ≠ .fault
+
+/-- **kd_lookup_total_before_fix_refuted.** It was false: `kdOffset+64 <= len` wrapped. Witness:
+`.rodata` at address 0 with 64 bytes and a `k.kd` symbol of size 64 at 0xfffffffffffffff0. -/
+theorem kd_lookup_total_before_fix_refuted : ¬ kd_lookup_total_before_fix := by
+  intro h
+  refine h [⟨"", 0, some []⟩, ⟨".rodata", 0, some (List.replicate 64 0)⟩] "k" [⟨"k.kd", 0xfffffffffffffff0, 64, 1⟩] ?_ ?_
+  · intro s hs
+    simp only [List.mem_singleton] at hs
+    subst hs
+    decide
+  · decide +kernel
+
+/-- **kd_repair_is_conservative.** The old lookup panicked exactly when the first `<k>.kd` symbol
+of size 64 in a `.rodata`-named section had a uint64 offset from `.rodata` within 64 of 2^64
+(1..64 bytes below the section, or ≥ 2^64−64 above it) whose wrapped end fitted the data; on
+every other input the repaired lookup answers what the old one answered. -/
+theorem kd_repair_is_conservative (secs : List Section) (k : String) (syms : List Symbol)
+    (hv : ∀ s ∈ syms, s.value < U64) (ha : ∀ sec ∈ secs, ∀ d, sec.data = some d → sec.addr + d.length < U64) :
+    (findV5Old secs k syms = .fault ↔
       ∃ ro rod s sec, findSection secs ".rodata" = some ro ∧ ro.data = some rod ∧
         syms.find? (fun s => s.name == k ++ ".kd" && s.size == 64) = some s ∧ secs[s.shndx]? = some sec ∧
         sec.name = ".rodata" ∧ U64 ≤ wrapSub s.value ro.addr + 64 ∧
-        wrapSub s.value ro.addr + 64 - U64 ≤ rod.length) :=
-  ⟨loadNamed_fault_iff secs text td syms k, findV5_fault_iff secs k syms hv⟩
+        wrapSub s.value ro.addr + 64 - U64 ≤ rod.length) ∧
+    (findV5Old secs k syms ≠ .fault → findV5 secs k syms = findV5Old secs k syms) :=
+  ⟨findV5Old_fault_iff secs k syms hv, findV5_eq_old secs k syms hv ha⟩
 
 /-! ## 2½. end to end: typed metadata through `loadKernel` -/
 
@@ -234,7 +255,7 @@ theorem load_typed_v3 (secs : List Section) (text : Section) (td : Bytes) (syms 
 
 /-- **load_typed_v5 (end to end).** A well-placed kernel symbol together with a `<k>.kd`
 symbol of size 64 lying inside `.rodata` whose bytes are a serialised typed descriptor
-(loader layout, any ignored bytes) loads as: exactly the symbol's bytes (never stripped),
+(ABI layout, any ignored bytes) loads as: exactly the symbol's bytes (never stripped),
 exactly the derived metadata raised by the register-count symbols, version 5, that symbol. -/
 theorem load_typed_v5 (secs : List Section) (text : Section) (td : Bytes) (syms : List Symbol) (k : String)
     (s : Symbol) (ro : Section) (rod : Bytes) (ks : Symbol) (sec : Section) (kd : KdV) (gi : KdIgnored)
@@ -341,10 +362,11 @@ example : ¬ HdrAgree (encodeHeader exHeaderV exIgnored) (encodeHeader { exHeade
   revert this
   decide +kernel
 
-/-- the shipped BitonicSort descriptor, typed in the loader's slots: rsrc2 0x00af0041 is not normalised -/
+/-- the shipped BitonicSort descriptor, typed: its stored rsrc2 0x84 is not normalised (→ 0x984) -/
 def exKdV : KdV :=
-  { lds := 0, priv := 0, kernarg := 280, entry := 0, rsrc3 := 0, rsrc1 := Rsrc1.dec 2, rsrc2 := Rsrc2.dec 0x00af0041 }
-example : (exKdV.rsrc2.norm true).enc = 0x00af09c4#32 := by decide +kernel
+  { lds := 0, priv := 0, kernarg := 280, entry := 0, rsrc3 := 2, rsrc1 := Rsrc1.dec 0x00af0041, rsrc2 := Rsrc2.dec 0x84 }
+example : (exKdV.rsrc2.norm true).enc = 0x984#32 := by decide +kernel
+example : (exKdV.derived.wiVgpr, exKdV.derived.wfSgpr) = (8, 16) := by decide +kernel
 example : exKdV.normalised ≠ exKdV := by decide +kernel
 
 
@@ -361,7 +383,7 @@ example : loadKernel ⟨exV3Secs, some [⟨"k", 0x1002, 260, 1⟩]⟩ "k" =
 
 /-- load_typed_v5 on the two-kernel example of `Props/C13.lean`: kernel `b`, descriptor = BitonicSort's -/
 def exKdIgn : KdIgnored :=
-  { reserved12 := 0, reserved24 := 0, reserved32 := 0, word52 := 0x84, half56 := 8, half58 := 0, reserved60 := 0 }
+  { reserved12 := 0, reserved24 := 0, reserved32 := 0, reserved40 := 0, props := 8, preload := 0, reserved60 := 0 }
 example : encodeKd exKdV exKdIgn = renderKd bitonicKd := by decide +kernel
 example : loadKernel ⟨exSecs, some exSyms1⟩ "b" =
     .ok { data := (exText.drop 4).take 260, md := overrideRegs "b" exKdV.derived exSyms1, version := 5,
@@ -395,11 +417,13 @@ example : selWF exSelSecs 0x1000 [1, 2, 3, 4, 5, 6, 7, 8] exSelSyms "k" = true :
 example : selectKernel exSelSecs 0x1000 [1, 2, 3, 4] [⟨"k", 0x1002, 4, 2⟩] "k" = .err .hiPastCap := by decide +kernel
 example : selectKernel exSelSecs 0x1000 [1, 2, 3, 4] [⟨"k", 0xfff, 2, 2⟩] "k" = .err .loPastHi := by decide +kernel
 example : selectKernel exSelSecs 0x1000 [1, 2, 3, 4] [⟨"k", 0x1000, 0, 2⟩] "k" = .err .notFound := by decide +kernel
-/-- the descriptor-slice panic: a `.kd` symbol 16 bytes below `.rodata` -/
-example : findV5 [⟨"", 0, some []⟩, ⟨".rodata", 0x600, some (List.replicate 64 0)⟩] "k" [⟨"k.kd", 0x5f0, 64, 1⟩] = .fault := by
+/-- the two descriptor placements that used to panic are now ignored: 16 bytes below `.rodata` … -/
+example : findV5Old [⟨"", 0, some []⟩, ⟨".rodata", 0x600, some (List.replicate 64 0)⟩] "k" [⟨"k.kd", 0x5f0, 64, 1⟩] = .fault ∧
+    findV5 [⟨"", 0, some []⟩, ⟨".rodata", 0x600, some (List.replicate 64 0)⟩] "k" [⟨"k.kd", 0x5f0, 64, 1⟩] = .none := by
   decide +kernel
-/-- … and one whose offset is ≥ 2^64 − 64 above it -/
-example : findV5 [⟨"", 0, some []⟩, ⟨".rodata", 0, some (List.replicate 64 0)⟩] "k" [⟨"k.kd", 0xfffffffffffffff0, 64, 1⟩] = .fault := by
+/-- … and an offset ≥ 2^64 − 64 above it -/
+example : findV5Old [⟨"", 0, some []⟩, ⟨".rodata", 0, some (List.replicate 64 0)⟩] "k" [⟨"k.kd", 0xfffffffffffffff0, 64, 1⟩] = .fault ∧
+    findV5 [⟨"", 0, some []⟩, ⟨".rodata", 0, some (List.replicate 64 0)⟩] "k" [⟨"k.kd", 0xfffffffffffffff0, 64, 1⟩] = .none := by
   decide +kernel
 
 /-- a session that loads `b` from the example object twice around other loads -/
